@@ -563,14 +563,21 @@ class Engine:
         return out
 
     def _run_function(self, key, c):
-        if c.body is not None:
+        real = None
+        if c.body is not None and not key.startswith("ghost:"):
+            # a library mixin restated as ghost code: if the repository (now) defines the method itself, that is what runs
+            try:
+                real = self.repo.find(key)
+            except (KeyError, OSError, ValueError):
+                real = None
+        if c.body is not None and real is None:
             mod = None
             node = ast.parse(c.body).body[0]
             clsnode = None
 
             mod = self.ghost_module(c)
         else:
-            node, mod, clsnode = self.repo.find(key)
+            node, mod, clsnode = real if real is not None else self.repo.find(key)
         fr = Frame(key, mod, clsnode, c, {})
         self.frames = [fr]
         self.uses |= set(c.lemmas)
@@ -1232,6 +1239,17 @@ class Engine:
                     for d in ds[1:]:
                         n = z3.If(z3_int(d.length) < n, z3_int(d.length), n)
                 return IterDesc(n, lambda k: tuple(d.get(k) for d in ds))
+            if c[0] in ("dictitems", "dictvalues"):
+                from . import speclib
+                dv = c[1]
+                ks = self.dkeys(dv)
+                s_ = sort(TOpt(dv.ty.val))
+                kp = speclib.dkpos_fn(dv.ty)
+                facts = lambda k: [z3.Not(s_.is_none(z3.Select(dv.t, ks[z3_int(k)]))), kp(dv.t, ks[z3_int(k)]) == z3_int(k)]
+                val = lambda k: self.unbox(SV(s_.val(z3.Select(dv.t, ks[z3_int(k)])), dv.ty.val))
+                if c[0] == "dictvalues":
+                    return IterDesc(z3.Length(ks), val, facts)
+                return IterDesc(z3.Length(ks), lambda k: (self.unbox(SV(ks[z3_int(k)], dv.ty.key)), val(k)), facts)
             if c[0] == "obj":
                 return self.obj_iter(v, fr, node)
         raise Unsupported("cannot iterate %r at line %d" % (v, getattr(node, "lineno", 0)))
